@@ -12,17 +12,18 @@ from kernel_common import op, new_prog
 LEVEL = "model_checking"
 META = {"text": "Every transition of every execution explored by simgrid-mc on programs covering each observable simcall kind "
                 "(mutex async-lock / wait / trylock / unlock, semaphore async-lock / wait / release, barrier, iSend / iRecv / WaitComm / "
-                "TestComm, condition variables, sleep, actor join and creation) is validated by TLC with the application's, the checker's and the specification's views in the same "
+                "TestComm, condition variables, sleep, actor join and creation, MC_random) is validated by TLC with the application's, the checker's and the specification's views in the same "
                 "step: same actor, same type, same object / target, same resulting owner / capacity / communication ends; only enabled "
                 "transitions may be fired, and each time the checker asks which actors are enabled (hook H4 cstatus) the answer must "
                 "be exactly the set the specification enables.",
-        "note": "Needs hooks H1 (application) and H4 (checker). Message queues, waitany/testany, iprobe, this_actor::exit and "
-                "MC_random are not generated; transitions replayed in one batch (creplay) carry no checker view.",
+        "note": "Needs hooks H1 (application) and H4 (checker). Message queues, waitany/testany, iprobe and this_actor::exit "
+                "are not generated; programs with MC_random are explored by sdpor / odpor under a short time limit (known finding "
+                "C38:mc-random); transitions replayed in one batch (creplay) carry no checker view.",
         "technique": "TLC trace validation of simgrid-mc executions with the checker's decoded transitions merged in (hooks H1 + H4)"}
 
 KINDS = {"MUTEX_ASYNC_LOCK", "MUTEX_WAIT", "MUTEX_TRYLOCK", "MUTEX_UNLOCK", "SEM_ASYNC_LOCK", "SEM_WAIT", "SEM_UNLOCK",
          "BARRIER_ASYNC_LOCK", "BARRIER_WAIT", "iSend", "iRecv", "WaitComm", "TestComm", "ActorSleep", "ActorJoin", "ActorCreate",
-         "CONDVAR_ASYNC_LOCK", "CONDVAR_WAIT", "CONDVAR_SIGNAL", "CONDVAR_BROADCAST"}
+         "CONDVAR_ASYNC_LOCK", "CONDVAR_WAIT", "CONDVAR_SIGNAL", "CONDVAR_BROADCAST", "Random"}
 
 
 def all_kinds_prog():
@@ -34,7 +35,7 @@ def all_kinds_prog():
 
 def run(ctx):
     quick = ctx.quick
-    progs = [all_kinds_prog()] + M.programs(ctx, 8 if quick else 40, 3, 4)
+    progs = [all_kinds_prog()] + M.programs(ctx, 8 if quick else 40, 3, 4, kinds=M.ALL_KINDS)
     for p in progs:
         ctx.count(p, nontrivial=True)
     ctx.sample(K.prog_brief(progs[0]))
